@@ -16,8 +16,12 @@ EXPLANATION = (
     "modulus, divmod / row*ncols+col (un)flattening, argument binding to an extent-named parameter and coordinate "
     "spec bound where BOTH sides have one definite kind, the axes must agree. A disagreement lets an entity leave a "
     "non-square grid (or wraps it at the wrong width) while every test on the square default grid passes. Unknown or "
-    "ambiguous kinds are silent. Not decided: entity counts, position/grid agreement, conservation laws (numeric).")
+    "ambiguous kinds are silent. Rule C07.R3 (sibling call sites): a helper that reset calls with exactly the value it "
+    "stores in a state field is, when step calls it too, given the value step stores in that field or an intermediate, "
+    "never the superseded field of the incoming state (e.g. Snake samples the new fruit against the NEW body). Not decided: entity counts, position/grid agreement, conservation laws (numeric).")
 
+GRID_WORLDS = ("Maze", "Cleaner", "PacMan", "Sokoban", "Snake", "Tetris", "Game2048", "Minesweeper", "Connector",
+               "LevelBasedForaging", "RobotWarehouse")
 MIN_TOTAL = 20
 MIN_PER_ENV = {"Cleaner": 4, "Maze": 5, "Snake": 3, "PacMan": 4, "Minesweeper": 3}
 
@@ -28,11 +32,12 @@ def check(tier: str) -> Result:
     n = axis_rules.add_obligations(res, tree, "C07.R1", scope="all")
     from . import wiring
     n_w = wiring.add_obligations(res, tree, "C07.R2", lambda ci: ci.module.name.startswith("jumanji.environments.") and not ci.module.name.endswith((".reward", ".done", ".types")))
+    n_p = wiring.paired_call_args(res, tree, "C07.R3", "state", lambda ci: ci.name in GRID_WORLDS)
     per = {k.split(":")[1]: v for k, v in res.extra.get("axis_sites_per_environment", {}).items()}
     low = {e: (per.get(e, 0), m) for e, m in MIN_PER_ENV.items() if per.get(e, 0) < m}
     if (n < MIN_TOTAL or low) and not any(o.ok is False for o in res.obligations):
         raise AnalysisError(f"typed check sites below the hand-confirmed minimum: total {n} (>= {MIN_TOTAL}), per environment {low}")
-    res.analysed = {"strict_environments": axis_rules.STRICT, "typed_sites": n, "per_environment": per}
+    res.analysed = {"strict_environments": axis_rules.STRICT, "typed_sites": n, "paired_reset_step_call_arguments": n_p, "per_environment": per}
     res.assumptions = ["row-major arrays; the repository's naming convention for extents (confirmed by reading all 23 environments)",
                        "environments with a single extent symbol for both axes are not typed (square by construction)"]
     return res
